@@ -137,6 +137,24 @@ func cellStores(a *ssa.Alloc) (stores []*ssa.Store, ok bool) {
 			case *ssa.MakeInterface:
 				// &x passed as any (e.g. json.Unmarshal(b, &x)): escapes
 				ok = false
+			case ssa.CallInstruction:
+				// &x handed to a repository function with a body (e.g. `defer recoverInto(&err)`): what the callee does
+				// with the pointer is followed like a captured variable - stores through it are stores into x, loads are
+				// fine, anything else is an escape
+				callee := x.Common().StaticCallee()
+				if callee == nil || callee.Blocks == nil || x.Common().IsInvoke() || len(callee.Params) != len(x.Common().Args) {
+					ok = false
+					break
+				}
+				if _, isGo := x.(*ssa.Go); isGo {
+					ok = false
+					break
+				}
+				for i, arg := range x.Common().Args {
+					if arg == addr {
+						visitAddr(callee.Params[i])
+					}
+				}
 			default:
 				ok = false
 			}
@@ -669,9 +687,41 @@ func cellReaching(stores []*ssa.Store, load ssa.Instruction) []*ssa.Store {
 		if isAncestor(load.Parent(), s.Parent()) && deferredOnly(directChild(load.Parent(), s.Parent())) && !afterRunDefers(load) {
 			continue
 		}
+		if deferredCalleeOnly(load, s.Parent()) && !afterRunDefers(load) {
+			continue
+		}
 		out = append(out, s)
 	}
 	return out
+}
+
+// deferredCalleeOnly: load reads a local variable whose address is handed to the named function g only by defer
+// statements of load's function (`defer g(&x)`): g's stores through the pointer take effect at rundefers.
+func deferredCalleeOnly(load ssa.Instruction, g *ssa.Function) bool {
+	u, ok := load.(*ssa.UnOp)
+	if !ok || g.Parent() != nil {
+		return false
+	}
+	a, ok := u.X.(*ssa.Alloc)
+	if !ok {
+		return false
+	}
+	refs := a.Referrers()
+	if refs == nil {
+		return false
+	}
+	n := 0
+	for _, r := range *refs {
+		call, isCall := r.(ssa.CallInstruction)
+		if !isCall || call.Common().StaticCallee() != g {
+			continue
+		}
+		if _, isDefer := r.(*ssa.Defer); !isDefer {
+			return false
+		}
+		n++
+	}
+	return n > 0
 }
 
 func isAncestor(anc, fn *ssa.Function) bool {
